@@ -145,6 +145,12 @@ func convertToDataNode(path []string, name string, node unserialized, sn schema.
 				if len(values) > 0 && (len(values) != 1 || values[0] != "") {
 					return nil, schema.NewEmptyLeafValueError(node.name(), path)
 				}
+			} else if len(values) == 0 {
+				// a leaf has exactly one value: "l": [] gives none ...
+				return nil, schema.NewMissingValueError(path)
+			} else if len(values) > 1 {
+				// ... and "l": ["a","b"] (or a repeated element) more than one
+				return nil, schema.NewNodeExistsError(path)
 			}
 		}
 		// Validate the values
@@ -176,6 +182,7 @@ func convertToDataNode(path []string, name string, node unserialized, sn schema.
 			return nil, err
 		}
 		children = make([]datanode.DataNode, len(ukids), len(ukids))
+		seen := make(map[string]bool, len(ukids))
 		for i, ch := range ukids {
 			csn := sn.Child(ch.name())
 			if csn == nil {
@@ -186,6 +193,13 @@ func convertToDataNode(path []string, name string, node unserialized, sn schema.
 			if err != nil {
 				return nil, err
 			}
+			// A node occurs once below its parent: a member given both as
+			// "x" and as "mod:x", or two entries of a list with the same
+			// key, would otherwise both end up in the tree.
+			if seen[childName] {
+				return nil, schema.NewNodeExistsError(append(path, childName))
+			}
+			seen[childName] = true
 
 			// Construct child path correctly for list case
 			childPath := path
